@@ -5,6 +5,9 @@
 (* abstract tokens that the harness renders to bytes).                     *)
 (*                                                                         *)
 (*  Mode = "all"     every token sequence over Tokens of length <= MaxLen  *)
+(*  Mode = "calls"   a method definition with one of ParamLists, then a  *)
+(*                   call with every argument list over CallArgs of length *)
+(*                   <= MaxLen (positional, splat, keyword, double splat)  *)
 (*  Mode = "grammar" programs built statement by statement from a small    *)
 (*                   Ruby grammar (with nesting), then up to MaxMut        *)
 (*                   token-level mutations: Drop, Dup, Swap, Truncate,     *)
@@ -18,6 +21,11 @@
 EXTENDS Integers, Sequences, FiniteSets, TLC, Json
 
 CONSTANTS Mode, Tokens, MaxLen, MaxStmts, MaxDepth, MaxMut, Junk
+
+\* Mode "calls"
+ParamLists == { <<>>, <<"a">>, <<"a", ",", "b", "=", "1">>, <<"a", ",", "*", "r">>, <<"a", ",", "k:">>,
+                <<"a", ",", "k:", "1", ",", "**", "o">>, <<"*", "r", ",", "b">> }
+CallArgs == { "1", "\"s\"", "x", "*x", "k: 1", "**h", "z: 1" }
 
 VARIABLES toks,   \* the text so far
           open,   \* stack of open constructs (grammar mode)
@@ -73,6 +81,19 @@ AllAppend ==
     /\ \E t \in Tokens : toks' = Append(toks, t)
     /\ UNCHANGED <<open, nst, phase, nmut>>
 
+(* ---- Mode "calls" ------------------------------------------------------*)
+RECURSIVE Join(_)
+Join(args) == IF args = <<>> THEN <<>> ELSE IF Len(args) = 1 THEN <<args[1]>> ELSE <<args[1], ",">> \o Join(Tail(args))
+
+CallsStart ==
+    /\ Mode = "calls" /\ toks = <<>>
+    /\ \E pl \in ParamLists, n \in 0..MaxLen : \E args \in [1..n -> CallArgs] :
+         toks' = <<"def", "m", "(">> \o pl \o <<")", NL, "a", NL, "end", NL,
+                   "x", "=", "[", "1", "]", NL, "h", "=", "{", "a:", "1", "}", NL,
+                   "m", "(">> \o Join(args) \o <<")", NL>>
+    /\ nst' = 1
+    /\ UNCHANGED <<open, phase, nmut>>
+
 (* ---- Mode "grammar" ----------------------------------------------------*)
 EmitSimple ==
     /\ Mode = "grammar" /\ phase = "build" /\ nst < MaxStmts
@@ -117,7 +138,7 @@ Mutate ==
     /\ nmut' = nmut + 1
     /\ UNCHANGED <<open, nst, phase>>
 
-Next == AllAppend \/ EmitSimple \/ EmitOpen \/ EmitMiddle \/ EmitClose \/ StartMutate \/ Mutate
+Next == AllAppend \/ CallsStart \/ EmitSimple \/ EmitOpen \/ EmitMiddle \/ EmitClose \/ StartMutate \/ Mutate
 
 Init == toks = <<>> /\ open = <<>> /\ nst = 0 /\ phase = "build" /\ nmut = 0
 
@@ -126,6 +147,7 @@ Spec == Init /\ [][Next]_vars
 \* which states are handed to the harness
 Emittable ==
     \/ Mode = "all"
+    \/ Mode = "calls" /\ toks # <<>>
     \/ Mode = "grammar" /\ phase = "build" /\ open = <<>> /\ Len(toks) > 0
     \/ Mode = "grammar" /\ phase = "mutate" /\ nmut > 0
 
